@@ -148,7 +148,7 @@ C15 = Prop(
     rule="seeded random declarations: 1-4 groups (default group first, named groups in creation order, empty groups), 0-3 "
          "entries per group of all three kinds with/without letter, env hint, default, reversible toggles, metavars, "
          "descriptions of 0-40 words incl. words of 38/41/79/120 characters, double blanks and tabs, application names of "
-         "1-30 characters, about texts; every text is produced on three streams (fresh string stream, string stream with "
+         "1-30 characters, about texts; every text is produced on four streams (fresh string stream, one whose fill character / adjustment / number base were left behind by earlier output, string stream with "
          "prior content, non-seekable ostream) and compared byte for byte. Non-trivial: at least one entry. " \
                 "Group names are created in non-alphabetical order; a third of the cases request every entry once more by name before printing, a third parse first (empty command line, both entry points); the text is also demanded from a move-constructed, a move-assigned and a twice-moved parser.",
     harness=HARNESS, search=lambda dis, rng: gen_c15("thorough", rng),
@@ -166,7 +166,7 @@ C15 = Prop(
                "kinds of stream and three moved parsers.",
     level_note="Trusted: Lean kernel; propext/Classical.choice/Quot.sound; iostream width/tellp semantics and std::set<toggle*> "
                "iteration order (read off the implementation) are modelled; correspondence is sampled.",
-    technique="Lean 4 proof (word preservation and width invariant by induction over the word list) + differential correspondence on three stream kinds and moved parsers",
+    technique="Lean 4 proof (word preservation and width invariant by induction over the word list) + differential correspondence on four stream kinds and moved parsers",
     design_ref="4 Engine Usage (C15)",
     assumptions=["std::setw(n) << ' ' writes max(n,1) blanks", "tellp() of a fresh stringstream is the number of characters written"],
     known={"U2": known_u2, "U3": known_u3, "U4": known_u4},
